@@ -23,11 +23,11 @@ type Variant struct {
 	File   *ir.File   `json:"file"`
 	Cfg    *ir.Config `json:"config"`
 
-	Model  *model.Model  `json:"-"`
-	Plugin *PluginResult `json:"-"`
+	Model  *model.Model      `json:"-"`
+	Plugin *PluginResult     `json:"-"`
 	PB     map[string]string `json:"-"`
-	TFName string        `json:"-"`
-	TFText string        `json:"-"`
+	TFName string            `json:"-"`
+	TFText string            `json:"-"`
 }
 
 // Case is a set of variants compiled into one test binary.
